@@ -22,7 +22,9 @@ MANIFEST = dict(
          "and the limits (vertex extrema over the box classes, selections and modulo operations resolved per class); reproducibility: every package "
          "function that draws on behalf of a sampler is handed the sampler's generator (generator flow over the call graph); the cartesian output "
          "of the box sampler is the unit vector of the equatorial output for the same deviates (polynomial normal form modulo the circle "
-         "relations); the stored cumulative table and abscissae hold every grid point (no element selection on top of them).",
+         "relations); the stored cumulative table and abscissae hold every grid point (no element selection on top of them); with no ranges given "
+         "the box sampler returns the terms of the box [0,360]x[-90,90]; the constructor of the cumulative sampler is evaluated along every "
+         "path its arguments leave open and ends with the passed generator (or RandomState(seed)) stored.",
     note="Not decided: distributional correctness, containment numerically. Trusted: numpy Generator/RandomState APIs, scipy "
          "cumulative_trapezoid, sympy normaliser.",
     technique="static analysis: abstract interpretation over a symbolic term domain (draws as uninterpreted deviates), who-may-call RNG discipline, AST provenance rules",
@@ -36,7 +38,8 @@ GLOBAL_RNG_OK = {"RandomState", "default_rng", "Generator", "SeedSequence"}
 # rules that keep their verdict however the code is laid out (decided by term equality, effect analysis or dominance over
 # resolved calls); every other rule of this check is a template rule (vcheck.core.Check.obt)
 SEMANTIC = ('R19.cap', 'R19.chol', 'R19.gen', 'R19.ind', 'R19.box::randsphere::ra-inside-box', 'R19.box::randsphere::dec-inside-box',
-            'R19.box::randsphere::generator-forwarded', 'R19.box::randsphere::xyz-system-converts-same-points')
+            'R19.box::randsphere::generator-forwarded', 'R19.box::randsphere::xyz-system-converts-same-points',
+            'R19.box::randsphere::default-ranges-are-full-sphere', 'R19.box::randsphere::draws-from-passed-generator')
 
 
 def run(chk):
@@ -88,9 +91,136 @@ class _RefEnv(symx.Env):
                 v = None
         name = self._function_ref(v)
         if name is not None:
-            direct = ast.copy_location(ast.Call(func=ast.copy_location(ast.Name(id=name, ctx=ast.Load()), f), args=c.args, keywords=c.keywords), c)
-            return super().call(direct, stmt_level)
+            c = ast.copy_location(ast.Call(func=ast.copy_location(ast.Name(id=name, ctx=ast.Load()), f), args=c.args, keywords=c.keywords), c)
+        c = self._positional(c)
+        made = self._instantiate(c)
+        if made is not None:
+            return made
         return super().call(c, stmt_level)
+
+    # ---- keyword arguments of package callees ---------------------------------------------------------------------------------
+    def _positional(self, c):
+        """the same call with the keyword arguments of a package function put at their positions in its signature
+        (`atbound(longitude=x, minval=0.0, maxval=360.0)` is `atbound(x, 0.0, 360.0)`); a parameter that is skipped is filled with
+        its default when that is a literal.  The engine binds keywords of callees it follows by name anyway; for the callees kept
+        as function symbols (and for the in-place updates it tracks through positional arguments) the spelling of the call must
+        not matter.  Anything not plainly bindable is left as it is."""
+        if not c.keywords or any(k.arg is None for k in c.keywords) or any(isinstance(a, ast.Starred) for a in c.args):
+            return c
+        d = dotted_name(c.func)
+        if not d or d.split(".")[0] in self.vars or d.split(".")[0] in self.pins:
+            return c
+        full = self.se.repo.resolve_name(self.mod, d)
+        if not self.se.repo.has(full):
+            return c
+        tgt = self.se.repo.func(full)
+        a = tgt.node.args
+        if tgt.cls is not None or a.vararg or a.kwarg or a.kwonlyargs or a.posonlyargs:
+            return c
+        params = list(tgt.params)
+        kw = {k.arg: k.value for k in c.keywords}
+        if len(kw) != len(c.keywords) or len(c.args) > len(params) or not set(kw) <= set(params[len(c.args):]):
+            return c
+        last = max(params.index(k) for k in kw)
+        new = list(c.args)
+        for p in params[len(c.args):last + 1]:
+            if p in kw:
+                new.append(kw[p])
+            elif p in tgt.defaults and isinstance(tgt.defaults[p], ast.Constant):
+                new.append(ast.copy_location(ast.Constant(value=tgt.defaults[p].value), c))
+            else:
+                return c
+        return ast.copy_location(ast.Call(func=c.func, args=new, keywords=[]), c)
+
+    # ---- small record classes of the package ------------------------------------------------------------------------------------
+    def _instantiate(self, c):
+        """the value of `Cls(args)` for a plain package class (no bases but object, no attribute hooks): a record of the
+        attributes its __init__ stores on self, each the term __init__ computes for it (the constructor is followed like any other
+        package callee).  None when the callee is not such a class"""
+        d = dotted_name(c.func)
+        if not d or d.split(".")[0] in self.vars or d.split(".")[0] in self.pins:
+            return None
+        full = self.se.repo.resolve_name(self.mod, d)
+        hit = self.se.repo.class_of(full)
+        if hit is None or not self.se.repo.has(full + ".__init__"):
+            return None
+        _, cd = hit
+        if cd.decorator_list or cd.keywords or any(not (isinstance(b, ast.Name) and b.id == "object") for b in cd.bases):
+            return None
+        if any(isinstance(s, ast.FunctionDef) and s.name in ("__new__", "__getattr__", "__getattribute__", "__setattr__", "__init_subclass__")
+               for s in cd.body):
+            return None
+        if any(isinstance(a, ast.Starred) for a in c.args) or any(k.arg is None for k in c.keywords):
+            return None
+        if self.depth >= self.se.inline_depth:
+            raise symx.Unsupported("symx: constructor `%s` at %s is nested too deeply" % (norm(c)[:60], self.where(c)))
+        init = self.se.repo.func(full + ".__init__")
+        params = [p for p in init.params if not p.startswith("*")][1:]
+        if len(c.args) > len(params):
+            return None
+        bind = {p: self.ev(a) for p, a in zip(params, c.args)}
+        for k in c.keywords:
+            bind[k.arg] = self.ev(k.value)
+        bind["self"] = symx.Opaque("self")
+        env = type(self)(self.se, init, init.module, bind, {}, depth=self.depth + 1)
+        for p in init.params:
+            pn = p.lstrip("*")
+            if pn not in env.vars and pn in init.defaults:
+                env.vars[pn] = env.ev(init.defaults[pn])
+        missing = [p for p in params if p not in env.vars]
+        if missing:
+            return None
+        env.exec_body(init.node.body, sp.true)
+        return {k[5:]: v for k, v in env.vars.items() if k.startswith("self.") and k.count(".") == 1}
+
+    # ---- module-level values the engine does not evaluate ------------------------------------------------------------------------
+    def ev(self, e, stmt_level=False):
+        if isinstance(e, ast.Name) and e.id not in self.pins and e.id not in self.vars and e.id not in self.flags:
+            v = self._module_value(self.mod, e.id)
+            if v is not None:
+                return v
+        return super().ev(e, stmt_level)
+
+    def _module_value(self, mod, name):
+        """value of a module-level name bound exactly once, by `name = <expr>` or as one element of `a, b = x, y`, and never
+        re-bound or stored into anywhere in the module: constants computed once at import by package helpers or record classes
+        (`_LIMITS = _limits(_FULL)`, `_CENTRE = _Centre(90.0, 0.0)`) are the value the expression has.  None: not such a name"""
+        v = self.se.module_const(mod, name)
+        if v is not None:
+            return v
+        cache = self.se.__dict__.setdefault("_c19_module_values", {})
+        key = (mod.name, name)
+        if key in cache:
+            return cache[key]
+        cache[key] = None
+        expr = []
+        for st in mod.tree.body:
+            if isinstance(st, ast.Assign):
+                for t in st.targets:
+                    if isinstance(t, ast.Name) and t.id == name:
+                        expr.append(st.value)
+                    elif isinstance(t, (ast.Tuple, ast.List)):
+                        for i, x in enumerate(t.elts):
+                            if name in {y.id for y in ast.walk(x) if isinstance(y, ast.Name)}:
+                                ok = isinstance(x, ast.Name) and isinstance(st.value, (ast.Tuple, ast.List)) and len(st.value.elts) == len(t.elts) \
+                                    and not any(isinstance(y, ast.Starred) for y in list(t.elts) + list(st.value.elts))
+                                expr.append(st.value.elts[i] if ok else None)
+            elif not isinstance(st, (ast.FunctionDef, ast.ClassDef, ast.Import, ast.ImportFrom)):
+                if any(isinstance(y, ast.Name) and y.id == name and isinstance(y.ctx, (ast.Store, ast.Del)) for y in ast.walk(st)):
+                    expr.append(None)
+        if len(expr) != 1 or expr[0] is None:
+            return None
+        for y in ast.walk(mod.tree):
+            if isinstance(y, ast.Global) and name in y.names:
+                return None
+            if isinstance(y, (ast.Attribute, ast.Subscript)) and isinstance(y.ctx, (ast.Store, ast.Del)) and isinstance(y.value, ast.Name) and y.value.id == name:
+                return None
+        try:
+            v = type(self)(self.se, None, mod, {}, {}).ev(expr[0])
+        except symx.Unsupported:
+            v = None
+        cache[key] = v
+        return v
 
 
 class _RefEval(symx.SymEval):
@@ -119,10 +249,17 @@ class _RefEval(symx.SymEval):
         return env.result
 
 
+def _opaque(repo, *names):
+    """the functions the names stand for in esutil.coords, wherever they are defined (a helper moved to a module of its own and
+    re-imported is the same function): kept as function symbols, their own behaviour is another property's business"""
+    mod = repo.module(CO[:-1])
+    return {CO + n for n in names} | {repo.resolve_name(mod, n) for n in names}
+
+
 def randsphere(chk, repo):
     fi = repo.func(CO + "randsphere")
     chk.analysed_unit(fi.qualname)
-    se = _RefEval(repo, opaque={CO + "atbound", CO + "atbound2", CO + "_check_range"})
+    se = _RefEval(repo, opaque=_opaque(repo, "atbound", "atbound2", "_check_range"))
     r0, r1, d0, d1, num = symx.symbols("r0", "r1", "d0", "d1", "num")
     rng = symx.Opaque("rng")
     res = se.run(fi, {"num": num, "ra_range": [r0, r1], "dec_range": [d0, d1], "rng": rng}, {"system": "eq"},
@@ -130,6 +267,14 @@ def randsphere(chk, repo):
     dr = _draws(se)
     ok = len(dr) == 2 and all(d[2] == "rng" and d[4] == "num" for d in dr)
     chk.ob("R19.box", "randsphere::two-draws-from-passed-generator-of-requested-size", ok, fi.where(), "two uniform draws, both rng.uniform(..., size=num): %s" % [(d[1], d[2], d[4]) for d in dr])
+    # reproducibility: the receiver of the draws is still the caller's generator where they are made (data flow of the parameter:
+    # kept by the `is None` fallback and by helpers that hand a passed generator back, lost when the name is bound to a value
+    # that does not depend on it)
+    sites = _draw_sites(repo, fi, {"rng": "gen", "num": "count"})
+    fresh = [s_ for s_ in sites if s_[2] == "fresh"]
+    chk.ob("R19.box", "randsphere::draws-from-passed-generator", False if fresh else (True if sites and all(s_[2] == "gen" for s_ in sites) else None), fi.where(),
+           "equal seeded generators must give equal output: every draw is made on the generator that was passed%s (draw sites %s)"
+           % (": the name is bound to a new generator before the draw at %s even when one was passed" % fresh[0][0] if fresh else "", sites))
     if isinstance(res, tuple) and len(res) == 2 and len(dr) == 2:
         U1, U2 = sp.Symbol(dr[0][5]), sp.Symbol(dr[1][5])
         ra, dec = res
@@ -182,7 +327,7 @@ def randsphere(chk, repo):
     else:
         chk.ob("R19.box", "randsphere::returns-pair", False, fi.where(), "got %r" % (res,))
     # xyz system goes through eq2xyz of the same ra/dec
-    se_x = _RefEval(repo, opaque={CO + "atbound", CO + "atbound2", CO + "_check_range", CO + "eq2xyz"})
+    se_x = _RefEval(repo, opaque=_opaque(repo, "atbound", "atbound2", "_check_range", "eq2xyz"))
     ok = None
     try:
         resx = se_x.run(fi, {"num": num, "ra_range": [r0, r1], "dec_range": [d0, d1], "rng": rng}, {"system": "xyz"},
@@ -208,8 +353,83 @@ def randsphere(chk, repo):
     cfgr = cfg_of(cr)
     ok = any(("rng[0] < allowed[0] or rng[1] > allowed[1]", "T") in rules.controlling_tests(cfgr.view(), n) for n in rules.raise_nodes(cfgr))
     chk.ob("R19.box", "_check_range::outside-allowed-rejected", ok, cr.where(), "ranges outside the allowed interval are rejected")
-    calls = {norm(x) for x in walk_no_nested(fi.node) if isinstance(x, ast.Call) and call_name(x) == "_check_range"}
-    chk.ob("R19.box", "randsphere::allowed-intervals", calls == {"_check_range(ra_range, [0.0, 360.0])", "_check_range(dec_range, [-90.0, 90.0])"}, fi.where(), "allowed intervals [0,360] and [-90,90] (%s)" % sorted(calls))
+    ok, found, okd, foundd = _allowed_intervals(repo, fi, cr, res, {"num": num, "rng": rng}, (r0, r1, d0, d1))
+    chk.ob("R19.box", "randsphere::allowed-intervals", ok, fi.where(), "allowed intervals [0,360] and [-90,90] (%s)" % found)
+    if okd is not None or ok:
+        # (decided on the returned terms; not reported when neither the validations nor the defaults were recognised: the rule
+        # above then says so)
+        chk.ob("R19.box", "randsphere::default-ranges-are-full-sphere", okd, fi.where(), "a range that is not given stands for the full interval: %s" % foundd)
+
+
+def _allowed_intervals(repo, fi, cr, res, args, syms):
+    """(True / False / None, what was found) twice, for: a range that is passed is validated against [0,360] (longitude) resp.
+    [-90,90] (latitude); and: a range that is not passed stands for that full interval.
+    The validations are the calls of the validator found through their callee; the range argument is followed to the parameter
+    (data flow) and the allowed interval is evaluated (a literal, a module constant, ...); a validation may be skipped only where
+    its range is None.  The defaults are judged on the values: with both ranges None (validator followed) the sampler must
+    return the terms it returns for the box [0,360]x[-90,90] with the same deviates."""
+    want = {"ra_range": (0, 360), "dec_range": (-90, 90)}
+    cfg = cfg_of(fi)
+    view = cfg.view()
+    vparams = [p for p in cr.params if not p.startswith("*")]
+    got, odd = {}, []
+    for n in cfg.nodes:
+        if n.ast is None or not view.reachable(n):
+            continue
+        roots = [n.ast.test] if n.kind in ("branch", "loop") and hasattr(n.ast, "test") else ([n.ast] if n.kind in ("stmt", "return") else [])
+        for root in roots:
+            for x in walk_no_nested(root):
+                if not isinstance(x, ast.Call):
+                    continue
+                d = dotted_name(x.func)
+                if not d or repo.resolve_name(fi.module, d) != cr.qualname:
+                    continue
+                bound = dict(zip(vparams, x.args))
+                bound.update({k.arg: k.value for k in x.keywords if k.arg})
+                if len(vparams) != 2 or set(bound) != set(vparams) or len(x.args) + len(x.keywords) != 2:
+                    odd.append(norm(x))
+                    continue
+                who = rules.expand(bound[vparams[0]], fi.node)
+                try:
+                    iv = _RefEnv(_RefEval(repo), fi, fi.module, {}, {}).ev(rules.expand(bound[vparams[1]], fi.node))
+                    iv = tuple(sp.nsimplify(symx._as_expr(v)) for v in iv) if isinstance(iv, (list, tuple)) and len(iv) == 2 else None
+                except (symx.Unsupported, TypeError, ValueError):
+                    iv = None
+                if not (isinstance(who, ast.Name) and who.id in want) or iv is None or not all(v.is_number for v in iv):
+                    odd.append(norm(x))
+                    continue
+                ts = rules.controlling_tests(view, n)
+                if any(not ((t == "%s is not None" % who.id and lab == "T") or (t == "%s is None" % who.id and lab == "F")) for t, lab in ts):
+                    odd.append("%s under %s" % (norm(x), ts))
+                    continue
+                got.setdefault(who.id, set()).add(iv)
+    found = "validated: %s" % ", ".join("%s against %s" % (k, sorted(v, key=str)) for k, v in sorted(got.items()))
+    if odd:
+        found += "; not followed: %s" % odd
+    wrong = [k for k, v in got.items() if v != {tuple(sp.Integer(z) for z in want[k])}]
+    missing = [k for k in want if k not in got]
+    if wrong:
+        ok = False
+    elif missing:
+        ok = None if odd else False
+        found += "; no validation of %s" % missing
+    else:
+        ok = None if odd else True
+    # the defaults: no range given = the full sphere
+    r0, r1, d0, d1 = syms
+    se_n = _RefEval(repo, opaque=_opaque(repo, "atbound", "atbound2"))
+    try:
+        res_n = se_n.run(fi, dict(args, ra_range=None, dec_range=None), {"system": "eq"})
+    except symx.Unsupported as ex:
+        return ok, found, None, "defaults not evaluated: %s" % ex
+    if not (isinstance(res, tuple) and isinstance(res_n, tuple) and len(res) == len(res_n) == 2 and all(isinstance(t, sp.Basic) for t in res + res_n)):
+        return ok, found, None, "defaults not evaluated: %s" % (res_n,)
+    if len(_draws(se_n)) != 2:          # (the run with both ranges given draws twice: U1, U2 name the same deviates in both)
+        return ok, found, None, "without ranges the sampler draws %s: the deviates are not matched" % ([d[1:5] for d in _draws(se_n)],)
+    full = {r0: 0, r1: 360, d0: -90, d1: 90}
+    same = all(symx.equal(a, b.subs(full, simultaneous=True))[0] for a, b in zip(res_n, res))
+    return ok, found, same, ("without ranges the points are those of the box [0,360]x[-90,90] for the same deviates" if same else
+                             "without ranges the sampler returns %s, not the points of the box [0,360]x[-90,90] for the same deviates" % (str(res_n)[:200],))
 
 
 # --------------------------------------------------------------------------
@@ -225,7 +445,7 @@ def randsphere(chk, repo):
 # --------------------------------------------------------------------------
 
 def _xyz_of_same_point(repo, fi, res_eq, args, pins):
-    opaque = {CO + "atbound", CO + "atbound2", CO + "_check_range"}
+    opaque = _opaque(repo, "atbound", "atbound2", "_check_range")
     se_e = _RefEval(repo, opaque=opaque)
     se_x = _RefEval(repo, opaque=opaque)
     try:
@@ -643,15 +863,48 @@ def cases_equal(a, b):
     return True
 
 
-def _draw_sites(repo, fi, roles, seen=None):
-    """every generator-draw call site reachable from fi, following calls into package functions with the roles of the parameters
-    carried along (roles: parameter name -> 'gen' | 'count'): [(where, method, receiver role, size role)]"""
-    seen = set() if seen is None else seen
-    key = (fi.qualname, tuple(sorted(roles.items())))
-    if key in seen:
-        return []
-    seen.add(key)
-    # a role is lost when the name is re-bound, except by the documented `if <gen> is None: <gen> = ...` fallback
+def _only_when_none(tests, v):
+    """the controlling tests say that `v` is None here (the branch of `if v is None:`, or what follows `if v is not None: return`)"""
+    return any((t == "%s is None" % v and lab == "T") or (t == "%s is not None" % v and lab == "F") for t, lab in tests)
+
+
+def _hands_back(repo, tgt, p, _memo={}):
+    """the package function tgt returns its parameter p itself whenever p is not None: every return statement either returns the
+    name p or is reached only when p is None (the fallback that builds a default), p is not re-bound except when it is None, and
+    the function does not fall off its end.  `rng = _make_rng(rng, ...)` then leaves a passed generator what it was"""
+    key = (id(repo), tgt.qualname, p)
+    if key in _memo:
+        return _memo[key]
+    _memo[key] = False
+    cfg = cfg_of(tgt)
+    view = cfg.view()
+    ok = p in [q.lstrip("*") for q in tgt.params] and not rules.falls_off_end(cfg, view) and not rules.is_generator(tgt.node)
+    gave = False
+    for n in cfg.nodes:
+        if not ok:
+            break
+        if n.ast is None or not view.reachable(n):
+            continue
+        ts = rules.controlling_tests(view, n)
+        if n.kind == "return":
+            if _only_when_none(ts, p):
+                continue
+            if isinstance(n.ast.value, ast.Name) and n.ast.value.id == p:
+                gave = True
+            else:
+                ok = False
+        elif n.kind in ("stmt", "loop", "with"):
+            d, _ = cfg.defs_uses(n)
+            if p in d and not _only_when_none(ts, p):
+                ok = False
+    _memo[key] = bool(ok and gave)
+    return _memo[key]
+
+
+def _roles_kept(repo, fi, roles, gen_only):
+    """the roles ('gen': the caller's generator, 'count': the requested count) the names of fi still have after its re-bindings:
+    a role is lost when the name is re-bound, except (for a generator) by the fallback that runs only when none was passed
+    (`if rng is None: rng = ...`) and by `rng = helper(.. rng ..)` with a package helper that hands a passed generator back"""
     cfg = cfg_of(fi)
     view = cfg.view()
     roles = dict(roles)
@@ -660,11 +913,83 @@ def _draw_sites(repo, fi, roles, seen=None):
             continue
         d, _ = cfg.defs_uses(n)
         for v in d:
-            if v in roles:
-                ts = rules.controlling_tests(view, n)
-                if roles[v] == "gen" and any(t == "%s is None" % v and lab == "T" for t, lab in ts):
-                    continue
-                roles[v] = "rebound"
+            if v not in roles:
+                continue
+            if (roles[v] == "gen" or not gen_only) and _only_when_none(rules.controlling_tests(view, n), v):
+                continue
+            if roles[v] == "gen" and _rebinds_to_itself(repo, fi, n.ast, v):
+                continue
+            # bound to a value that does not depend on the name (nor on anything computed from it): positively not what was passed
+            fresh = roles[v] == "gen" and isinstance(n.ast, ast.Assign) and len(n.ast.targets) == 1 and isinstance(n.ast.targets[0], ast.Name) \
+                and v not in rules.names_in(rules.expand(n.ast.value, fi.node)) and not _aliased(fi, v)
+            roles[v] = "fresh" if fresh else "rebound"
+    return roles
+
+
+def _aliased(fi, v):
+    """the value of the parameter v is copied somewhere (`g = rng`, `self.rng = rng`, packed into a container): another name may stand for it"""
+    for x in walk_no_nested(fi.node):
+        if isinstance(x, (ast.Assign, ast.AnnAssign, ast.NamedExpr)) and x.value is not None:
+            tg = x.targets if isinstance(x, ast.Assign) else [x.target]
+            if v in rules.names_in(x.value) and not all(isinstance(t, ast.Name) and t.id == v for t in tg):
+                # (results of calls and arithmetic on it are not the generator itself; a bare name, a container display or a
+                # conditional / boolean selection of it is)
+                vals = [x.value]
+                while vals:
+                    y = vals.pop()
+                    if isinstance(y, ast.Name) and y.id == v:
+                        return True
+                    if isinstance(y, (ast.Tuple, ast.List, ast.Set)):
+                        vals += list(y.elts)
+                    elif isinstance(y, ast.Dict):
+                        vals += [z for z in y.values if z is not None]
+                    elif isinstance(y, ast.IfExp):
+                        vals += [y.body, y.orelse]
+                    elif isinstance(y, ast.BoolOp):
+                        vals += list(y.values)
+                    elif isinstance(y, ast.Starred):
+                        vals.append(y.value)
+    return False
+
+
+def _rebinds_to_itself(repo, fi, st, v):
+    """st leaves a generator that was passed as v what it is: `v = helper(.., v, ..)` where the package function helper hands the
+    parameter v is bound to back when it is given, or the one-line spellings of the `is None` fallback"""
+    if not (isinstance(st, ast.Assign) and len(st.targets) == 1 and isinstance(st.targets[0], ast.Name) and st.targets[0].id == v):
+        return False
+    c = st.value
+    is_v = lambda e: isinstance(e, ast.Name) and e.id == v
+    if isinstance(c, ast.IfExp):
+        # v = v if v is not None else <default>  /  v = <default> if v is None else v
+        t = norm(c.test)
+        return (t == "%s is not None" % v and is_v(c.body)) or (t == "%s is None" % v and is_v(c.orelse))
+    if isinstance(c, ast.BoolOp) and isinstance(c.op, ast.Or):
+        return is_v(c.values[0])            # v = v or <default>: a generator object is true
+    if not isinstance(c, ast.Call):
+        return False
+    d = dotted_name(c.func)
+    full = repo.resolve_name(fi.module, d) if d else None
+    if not (full and repo.has(full)) or any(isinstance(a, ast.Starred) for a in c.args) or any(k.arg is None for k in c.keywords):
+        return False
+    tgt = repo.func(full)
+    if tgt.cls is not None:
+        return False
+    params = [p for p in tgt.params if not p.startswith("*")]
+    bound = dict(zip(params, c.args))
+    bound.update({k.arg: k.value for k in c.keywords})
+    mine = [p for p, a in bound.items() if isinstance(a, ast.Name) and a.id == v]
+    return len(mine) == 1 and _hands_back(repo, tgt, mine[0])
+
+
+def _draw_sites(repo, fi, roles, seen=None):
+    """every generator-draw call site reachable from fi, following calls into package functions with the roles of the parameters
+    carried along (roles: parameter name -> 'gen' | 'count'): [(where, method, receiver role, size role)]"""
+    seen = set() if seen is None else seen
+    key = (fi.qualname, tuple(sorted(roles.items())))
+    if key in seen:
+        return []
+    seen.add(key)
+    roles = _roles_kept(repo, fi, roles, gen_only=True)
     out = []
     for x in walk_no_nested(fi.node):
         if not isinstance(x, ast.Call):
@@ -730,19 +1055,7 @@ def _generator_handoffs(repo, fi, roles, seen=None):
     if key in seen:
         return []
     seen.add(key)
-    cfg = cfg_of(fi)
-    view = cfg.view()
-    roles = dict(roles)
-    for n in cfg.nodes:
-        if n.ast is None or n.kind not in ("stmt", "loop", "with"):
-            continue
-        d, _ = cfg.defs_uses(n)
-        for v in d:
-            if v in roles:
-                ts = rules.controlling_tests(view, n)
-                if any(t == "%s is None" % v and lab == "T" for t, lab in ts):
-                    continue
-                roles[v] = "rebound"
+    roles = _roles_kept(repo, fi, roles, gen_only=False)
     out = []
     for x in walk_no_nested(fi.node):
         if not isinstance(x, ast.Call):
@@ -854,7 +1167,7 @@ def randcap(chk, repo):
     sites = _draw_sites(repo, fi, {"rng": "gen", "nrand": "count"})
     prov = bool(sites) and all(g == "gen" and c == "count" for _, _, g, c in sites)
     # ---- direct path
-    se = symx.SymEval(repo, opaque={CO + "atbound", CO + "atbound2"})
+    se = _RefEval(repo, opaque=_opaque(repo, "atbound", "atbound2"))
     se.assume = dict(assume_direct)
     res, err = _try_run(se, fi, dict(args, dorot=False), {"get_radius": True})
     dr = _draws(se)
@@ -895,7 +1208,7 @@ def randcap(chk, repo):
             chk.ob(R, "randcap[direct]::returned-radius-in-degrees", eq, w,
                    "returned radii are the generated separations sqrt(U)*rad in degrees (found %s)" % rr)
     # ---- rotated path: radii must be the same quantity in the same unit; positions are the equatorial cap, tilted then turned
-    se2 = symx.SymEval(repo, opaque={CO + "atbound", CO + "atbound2", CO + "rotate"})
+    se2 = _RefEval(repo, opaque=_opaque(repo, "atbound", "atbound2", "rotate"))
     se2.assume = dict(assume_direct)
     res2, err = _try_run(se2, fi, dict(args, dorot=True), {"get_radius": True})
     dr2 = _draws(se2)
@@ -946,7 +1259,7 @@ def randcap(chk, repo):
         ok = True
         why = ""
         for pole in (90, -90, POLE, -POLE):
-            se3 = symx.SymEval(repo, opaque={CO + "atbound", CO + "atbound2", CO + "rotate"})
+            se3 = _RefEval(repo, opaque=_opaque(repo, "atbound", "atbound2", "rotate"))
             res3, err = _try_run(se3, fi, dict(args, dec=sp.sympify(pole), dorot=False), {"get_radius": True})
             if err is not None or not _is_triple(res3):
                 ok, why = None, "centre latitude %s not evaluated: %s" % (pole, err or res3)
@@ -994,6 +1307,22 @@ def _private_callees(repo, fi):
     return out
 
 
+def _fallback_operand(root, x):
+    """x lies in the operand of an expression that is evaluated only when some <generator> is None: the one-line spellings of the
+    fallback, `<new> if g is None else g`, `g if g is not None else <new>`, `g or <new>`"""
+    def inside(sub):
+        return any(y is x for y in ast.walk(sub))
+    simple = lambda e: dotted_name(e) is not None
+    for y in ast.walk(root):
+        if isinstance(y, ast.IfExp) and isinstance(y.test, ast.Compare) and len(y.test.ops) == 1 and simple(y.test.left) \
+                and isinstance(y.test.comparators[0], ast.Constant) and y.test.comparators[0].value is None:
+            if (isinstance(y.test.ops[0], ast.Is) and inside(y.body)) or (isinstance(y.test.ops[0], ast.IsNot) and inside(y.orelse)):
+                return True
+        if isinstance(y, ast.BoolOp) and isinstance(y.op, ast.Or) and simple(y.values[0]) and any(inside(v) for v in y.values[1:]):
+            return True
+    return False
+
+
 def rng_discipline(chk, repo):
     units = list(SAMPLERS)
     for q in units:                     # the list grows while it is walked: helpers the samplers were split into
@@ -1022,7 +1351,11 @@ def rng_discipline(chk, repo):
                             n_glob += 1
                             leaf = full.split(".")[-1]
                             ts = rules.controlling_tests(view, n)
-                            fallback = any(t.endswith(" is None") and lab == "T" for t, lab in ts)
+                            # reached only when some <generator> is None: the arm of `if g is None:` or the code after the guard
+                            # clause `if g is not None: return g`
+                            fallback = any((t.endswith(" is None") and " " not in t[:-8] and lab == "T") or
+                                           (t.endswith(" is not None") and " " not in t[:-12] and lab == "F") for t, lab in ts) \
+                                or _fallback_operand(root, x)
                             if leaf in GLOBAL_RNG_OK and fallback:
                                 continue
                             if leaf in ("randn",) and fallback and isinstance(n.ast, ast.Assign):
@@ -1115,6 +1448,13 @@ class Mini:
         # truth value per atom and path (the same atom, or its negation, met again on the path keeps its value)
         self.forced = None                  # atom -> bool chosen for this path; None: no exploration (undecided tests have no verdict)
         self.trail = []                     # atoms first met on this path, in order, with the value taken
+        # path exploration over tests nothing decides (mini_forks): `if isinstance(p, FunctionType):` is taken both ways, one
+        # run per combination; a test met again (same statement) keeps its value
+        self.fork = None                    # (function, line, column) of an if statement -> arm taken on this path; None: no exploration
+        self.fork_trail = []
+        self.entries = []                   # (qualified name, object state on entry) of every function evaluated
+        self.depth = 0                      # nesting of followed calls; `at`: the statement of the outermost function being evaluated
+        self.at = None
         self.elementwise = False            # comparisons of array terms used as values are kept as terms (masks) instead of UNK
 
     # ---- ranks / broadcasting -------------------------------------------
@@ -1214,12 +1554,16 @@ class Mini:
             if pn not in env and pn in fi.defaults:
                 env[pn] = self.ev(fi.defaults[pn], {}, fi)
         self.calls.append(fi.qualname)
+        self.entries.append((fi.qualname, dict(self.state)))
         if len(self.calls) > 40:
             raise NoVerdict("call depth")
+        self.depth += 1
         try:
             self.body(fi.node.body, env, fi)
         except _Ret as r:
             return r.value
+        finally:
+            self.depth -= 1
         return None
 
     def body(self, stmts, env, fi):
@@ -1230,6 +1574,8 @@ class Mini:
         return bool(stmts) and isinstance(stmts[-1], ast.Raise) and all(isinstance(s, (ast.Raise, ast.Expr, ast.Assign)) for s in stmts)
 
     def stmt(self, st, env, fi):
+        if self.depth == 1:
+            self.at = st
         if isinstance(st, (ast.Pass, ast.Import, ast.ImportFrom, ast.Global, ast.Assert)):
             return
         if isinstance(st, ast.Expr):
@@ -1261,6 +1607,12 @@ class Mini:
                     t = False       # a rejection guard: the valid-input path goes on
                 elif self.always_raises(st.orelse):
                     t = True
+                elif self.fork is not None:
+                    key = (fi.qualname, st.lineno, st.col_offset)
+                    if key not in self.fork:
+                        self.fork[key] = True
+                        self.fork_trail.append(key)
+                    t = self.fork[key]
                 else:
                     raise NoVerdict("test `%s` at %s is not decided by the flags" % (norm(st.test), fi.where(st)))
             self.body(st.body if t else st.orelse, env, fi)
@@ -1560,7 +1912,11 @@ class Mini:
 
     def subscript(self, base, sl, env, fi, e):
         if isinstance(sl, ast.Tuple):
-            items = [self.index_item(x, env, fi) for x in sl.elts]
+            elts = list(sl.elts)
+            if len(elts) == 2 and isinstance(elts[0], ast.Constant) and elts[0].value is Ellipsis and isinstance(elts[1], ast.Slice):
+                # `a[..., lo:hi]` slices the last axis; the tables of this check are grids (one axis), where it is `a[lo:hi]`
+                elts = elts[1:]
+            items = [self.index_item(x, env, fi) for x in elts]
         else:
             items = [self.index_item(sl, env, fi)]
         if isinstance(base, tuple) and len(items) == 1 and isinstance(items[0], sp.Integer) and -len(base) <= int(items[0]) < len(base):
@@ -1583,6 +1939,17 @@ class Mini:
         if all(isinstance(i, sp.Basic) for i in items):
             return AT_(b, *items)
         raise NoVerdict("subscript `%s` at %s" % (norm(e), fi.where(e)))
+
+    def last_axis_only(self, c, env, fi):
+        """the call has no keyword but, possibly, axis=-1"""
+        if not c.keywords:
+            return True
+        if [k.arg for k in c.keywords] != ["axis"]:
+            return False
+        try:
+            return self.ev(c.keywords[0].value, env, fi) == sp.Integer(-1)
+        except NoVerdict:
+            return False
 
     def kw_terms(self, c, env, fi, skip=()):
         return [Fn("KW_" + k.arg)(term(self.ev(k.value, env, fi))) for k in sorted(c.keywords, key=lambda k: k.arg or "") if k.arg and k.arg not in skip]
@@ -1635,10 +2002,9 @@ class Mini:
                 if x is None:
                     raise NoVerdict("cumulative_trapezoid without abscissae at %s" % fi.where(c))
                 return CUMTRAPZ(term(args[0]), term(x))
-            if full == "numpy.cumsum" and len(args) == 1 and not c.keywords:
-                return CUMSUM(term(args[0]))
-            if full == "numpy.diff" and len(args) == 1 and not c.keywords:
-                return DIFF(term(args[0]))
+            if full in ("numpy.cumsum", "numpy.diff") and len(args) == 1 and self.last_axis_only(c, env, fi):
+                # along the last axis: numpy.diff's default; for numpy.cumsum the same as its default on a grid (one axis)
+                return (CUMSUM if full == "numpy.cumsum" else DIFF)(term(args[0]))
             if full == "len" and len(args) == 1:
                 return LEN(term(args[0]))
             if full == "numpy.size" and len(args) == 1:
@@ -1717,6 +2083,36 @@ def mini_paths(repo, q, bind, state=None, ranks=None, limit=32):
             taken[key] = True
         if not raised:
             out.append(({k: mv.forced[k] for k in mv.forced}, v))
+    return out
+
+
+def mini_forks(repo, q, bind, state=None, limit=16):
+    """the package function q evaluated along every combination of the tests that nothing decides (each such `if` taken both
+    ways): [(None | NoVerdict | "raised", evaluator)] -- the evaluator holds the object state at the end of the path (or where
+    the evaluation stopped) and the state on entry of every function followed.  None when there are more than `limit` paths"""
+    out = []
+    work = [{}]
+    while work:
+        fork = work.pop()
+        if len(out) + len(work) > limit:
+            return None
+        mv = Mini(repo)
+        mv.state.update(state or {})
+        mv.fork = dict(fork)
+        end = None
+        try:
+            mv.run(repo.func(q), dict(bind))
+        except NoVerdict as e:
+            end = e
+        except _Raised:
+            end = "raised"
+        taken = dict(fork)
+        for key in mv.fork_trail:
+            alt = dict(taken)
+            alt[key] = False
+            work.append(alt)
+            taken[key] = True
+        out.append((end, mv))
     return out
 
 
@@ -1850,7 +2246,8 @@ def generator(chk, repo):
         chk.analysed_unit(q)
         w = fi.where()
         # ---- density input: the stored table is the normalised trapezoid integral, aligned with x[1:]
-        v, st, _ = mini_run(repo, q, {}, {"self.method": "accum", "self.cumulative": False}, elementwise=True)
+        known = _entry_flags(repo, q)
+        v, st, _ = mini_run(repo, q, {}, dict(known, **{"self.method": "accum", "self.cumulative": False}), elementwise=True)
         keys = [q + "::trapezoid-cumulative", q + "::normalised", q + "::abscissa-alignment", q + "::every-grid-point-kept"]
         if isinstance(v, NoVerdict):
             _none(chk, R, keys, w, "set-up code not evaluated: %s" % v)
@@ -1882,7 +2279,7 @@ def generator(chk, repo):
                 chk.ob(R, keys[1], ok, w, "the table is divided by its last value (ends at 1): pcum = %s, norm = %s" % (str(pcum)[:160], str(nrm)[:80]))
             chk.ob(R, keys[2], None if xv is None else teq(xv, one), w, "cumulative value k belongs to x[k+1]: abscissae are x[1:] (found %s)" % xv)
         # ---- cumulative input
-        v, st, _ = mini_run(repo, q, {}, {"self.method": "accum", "self.cumulative": True})
+        v, st, _ = mini_run(repo, q, {}, dict(known, **{"self.method": "accum", "self.cumulative": True}))
         if isinstance(v, NoVerdict):
             _none(chk, R, [q + "::cumulative-input-used-as-is"], w, "set-up code not evaluated: %s" % v)
         else:
@@ -1924,12 +2321,97 @@ def generator(chk, repo):
     got, _, _ = mini_run(repo, fi.qualname, {"numrand": numrand}, {"self.method": "accum"})
     ok = None if not (isinstance(got, sp.Basic) and isinstance(acc, sp.Basic)) else (got == acc)
     chk.ob(R, fi.qualname + "::accum-dispatch-with-requested-count", ok, fi.where(), "method 'accum' draws exactly numrand values (%s)" % str(got)[:160])
-    # the generator stored is the one passed
+    # the generator stored is the one passed: the constructor is evaluated with a generator and without one, along every path the
+    # other arguments leave open; at the end of each the object's generator must be the passed one / a RandomState seeded with seed=
     fi = repo.func(RA + "Generator.__init__")
-    cfg = cfg_of(fi)
-    view = cfg.view()
-    st = [(rules.xnorm(n.ast.value, fi.node), dict(rules.controlling_tests(view, n)).get("rng is None")) for n in cfg.nodes if n.kind == "stmt" and isinstance(n.ast, ast.Assign) and norm(n.ast.targets[0]) == "self.rng"]
-    chk.ob(R, fi.qualname + "::keeps-passed-generator", sorted(st, key=str) == sorted([("numpy.random.RandomState(seed=seed)", "T"), ("rng", "F")], key=str), fi.where(), "self.rng is the passed generator, or a seeded RandomState when none is given (%s)" % st)
+    ok, found = _stored_generator(repo, fi)
+    chk.ob(R, fi.qualname + "::keeps-passed-generator", ok, fi.where(), "self.rng is the passed generator, or a seeded RandomState when none is given (%s)" % found)
+
+
+def _constructor_paths(repo, fi, given, method="accum", cumulative=False):
+    """mini_forks of Generator.__init__ with every argument a symbol except the flags and rng (a symbol or None)"""
+    bind = {p: sp.Symbol(p) for p in fi.params if p != "self" and not p.startswith("*")}
+    bind.update({"method": method, "cumulative": cumulative, "rng": sp.Symbol("rng") if given else None})
+    bind = {k: v for k, v in bind.items() if k in fi.params}
+    return mini_forks(repo, fi.qualname, bind)
+
+
+def _stored_generator(repo, fi):
+    """(True / False / None, what was found) for: after Generator.__init__ self.rng is the `rng` argument when one is given and
+    numpy.random.RandomState(seed) otherwise, whatever the other arguments are"""
+    seed = sp.Symbol("seed")
+    RS = Fn("numpy.random.RandomState")
+    want = {True: (sp.Symbol("rng"),), False: (RS(seed), RS(Fn("KW_seed")(seed)))}
+    found, verdicts = [], []
+    for given in (True, False):
+        for method in ("accum", "cut"):
+            paths = _constructor_paths(repo, fi, given, method)
+            if not paths:
+                return None, "constructor paths not enumerated"
+            for end, mv in paths:
+                if end == "raised":
+                    continue            # the arguments are refused
+                got = mv.state.get("self.rng")
+                what = "rng %s, method %r: %s" % ("given" if given else "None", method, got if end is None else "not evaluated: %s" % end)
+                if what not in found:
+                    found.append(what)
+                right = isinstance(got, sp.Basic) and got in want[given]
+                if end is None:
+                    verdicts.append(right)
+                elif "self.rng" in mv.state and mv.at is not None and not _stored_later(repo, fi, mv.at, "rng"):
+                    verdicts.append(right)      # evaluated past the last statement that stores the attribute
+                else:
+                    verdicts.append(None)
+    if not verdicts:
+        return None, "no path of the constructor completes"
+    if any(v is False for v in verdicts):
+        return False, "; ".join(found)
+    return (None if any(v is None for v in verdicts) else True), "; ".join(found)
+
+
+def _stored_later(repo, fi, at, attr):
+    """self.<attr> may be stored after the evaluation of the method fi stopped in statement `at`: a store at or below that
+    statement, in another method of the class, or through setattr / __dict__"""
+    cd = fi.module.classes.get(fi.cls)
+    if cd is None:
+        return True
+    for x in ast.walk(cd):
+        if isinstance(x, ast.Call) and call_name(x) in ("setattr", "delattr", "vars"):
+            return True
+        if isinstance(x, ast.Attribute) and x.attr in ("__dict__", "__setattr__"):
+            return True
+    for m in cd.body:
+        for x in ast.walk(m):
+            if isinstance(x, ast.Attribute) and x.attr == attr and isinstance(x.ctx, (ast.Store, ast.Del)):
+                if m is not fi.node or x.lineno >= at.lineno:
+                    return True
+    return False
+
+
+def _entry_flags(repo, q):
+    """the literal flags (True / False / None / strings) the object holds whenever Generator.__init__ calls the method q: read off
+    the constructor's data flow (`self.isfunc = False` precedes `self.initialize_points()` on the only path that calls it), the
+    same on every path and for every kind of argument; {} when the constructor does not call q or is not evaluated"""
+    fi = repo.func(RA + "Generator.__init__")
+    seen = []
+    for given in (True, False):
+        for cumulative in (False, True):
+            paths = _constructor_paths(repo, fi, given, "accum", cumulative)
+            if not paths:
+                return {}
+            for end, mv in paths:
+                hits = [st for name, st in mv.entries if name == q]
+                if end is not None and end != "raised" and not hits:
+                    return {}           # the path was not evaluated up to a possible call of q
+                seen += hits
+    if not seen:
+        return {}
+    out = {}
+    for k, v in seen[0].items():
+        if (v is None or isinstance(v, (bool, str))) and k not in ("self.method", "self.cumulative") \
+                and all(k in st and type(st[k]) is type(v) and st[k] == v for st in seen):
+            out[k] = v
+    return out
 
 
 def _raw_after_normalise(chk, fi, rule):
